@@ -26,6 +26,15 @@ def zx(t, w):
 
 
 IDENT = r'[A-Za-z_][A-Za-z0-9_$]*'
+# IEEE 1364-2001 Annex B: the reserved keywords (none of them may be used as an identifier)
+RESERVED = frozenset('''always and assign automatic begin buf bufif0 bufif1 case casex casez cell cmos config deassign default
+defparam design disable edge else end endcase endconfig endfunction endgenerate endmodule endprimitive endspecify endtable endtask
+event for force forever fork function generate genvar highz0 highz1 if ifnone incdir include initial inout input instance integer
+join large liblist library localparam macromodule medium module nand negedge nmos nor noshowcancelled not notif0 notif1 or output
+parameter pmos posedge primitive pull0 pull1 pulldown pullup pulsestyle_onevent pulsestyle_ondetect rcmos real realtime reg release
+repeat rnmos rpmos rtran rtranif0 rtranif1 scalared showcancelled signed small specify specparam strong0 strong1 supply0 supply1
+table task time tran tranif0 tranif1 tri tri0 tri1 triand trior trireg unsigned use vectored wait wand weak0 weak1 while wire wor
+xnor xor'''.split())
 
 
 class Module(object):
@@ -52,12 +61,18 @@ class Module(object):
             raise VTransError('cannot read declaration %r' % rest)
         w = int(m.group(1)) + 1 if m.group(1) else 1
         name = m.group(2)
+        if name in RESERVED:
+            raise VTransError('reserved word %r used as an identifier (not a well-formed module)' % name)
+        if len(name) > 1024:
+            raise VTransError('identifier longer than 1024 characters (not a well-formed module)')
         if m.group(3) is not None or (kind == 'reg' and name.startswith('mem_') and m.group(4) is not None):
             size = int(m.group(3)) + 1 if m.group(3) is not None else 1
+            if name in self.inputs or name in self.outputs or name in self.regs or name in self.wires or name in self.mems:
+                raise VTransError('identifier %r declared twice (not a well-formed module)' % name)
             self.mems[name] = (w, size, (m.group(4) or '').strip())
             return
         target = {'input': self.inputs, 'output': self.outputs, 'reg': self.regs, 'wire': self.wires}[kind]
-        if name in self.inputs or name in self.outputs or name in self.regs or name in self.wires:
+        if name in self.inputs or name in self.outputs or name in self.regs or name in self.wires or name in self.mems:
             raise VTransError('identifier %r declared twice (not a well-formed module)' % name)
         target[name] = w
 
@@ -75,6 +90,9 @@ class Module(object):
             if m:
                 self.name = m.group(1)
                 self.ports = [p.strip() for p in m.group(2).split(',')]
+                for p_ in self.ports:
+                    if not re.match(IDENT + '$', p_) or p_ in RESERVED:
+                        raise VTransError('port %r is not a Verilog-2001 identifier (not a well-formed module)' % p_)
                 if len(set(self.ports)) != len(self.ports):
                     raise VTransError('duplicate port names %r (not a well-formed module)' % self.ports)
                 continue
@@ -314,6 +332,25 @@ class Testbench(object):
         self.ports = []
         cur = {}
         started = False
+        # every name declared in the scope of module tb() (reg / wire / integer declarations and the instance name) is
+        # declared once and is not a reserved word
+        declared = []
+        for raw in text.split('\n'):
+            ln = raw.strip()
+            m = re.match(r'(?:reg|wire|integer)\s*(?:\[\d+:0\])?\s*(%s);$' % IDENT, ln)
+            if m:
+                declared.append(m.group(1))
+            m = re.match(r'toplevel (%s)\(' % IDENT, ln)
+            if m:
+                declared.append(m.group(1))
+            if ln.startswith('initial') or ln.startswith('always'):
+                break
+        dup = sorted({n for n in declared if declared.count(n) > 1})
+        if dup:
+            raise VTransError('testbench declares %r more than once (not a well-formed module)' % dup)
+        bad = [n for n in declared if n in RESERVED]
+        if bad:
+            raise VTransError('testbench uses reserved words %r as identifiers' % bad)
         for raw in text.split('\n'):
             ln = raw.strip()
             m = re.match(r'toplevel block\((.*)\);$', ln)
